@@ -145,6 +145,18 @@ def check(case):
             ofs = [ref.var_positions(n) for n in q['of']]
             wrts = [ref.var_positions(n) for n in q['wrt']]
             Jref = np.block([[ref.total_block(dudx, (ok, op), (wk, wp)) for (wk, wp, _) in wrts] for (ok, op, _) in ofs])
+        if spec.get('desvars'):
+            # explicit of/wrt names that are also driver variables inherit the driver's indices: only the driver
+            # query is judged for such cases
+            try:
+                bad = driver_totals(p, spec, ref, dudx, cond, bool(q.get('driver_scaling')), mode)
+            except om.AnalysisError:
+                res.discard = 'linear-nonconverged'
+                res.classes = cls + ['nonconverged']
+                return res
+            for sig, det in bad:
+                res.fail(tag(known, sig), det)
+            continue
         try:
             J = p.compute_totals(of=q['of'], wrt=q['wrt'], return_format='array')
         except om.AnalysisError:
@@ -183,10 +195,60 @@ def check(case):
                     c0 += len(wp)
                 r0 += len(op)
     ncomp = len([c for c in spec['comps'] if c['kind'] != 'ivc'])
-    interesting = flags & {'feedback', 'src_indices_nd', 'unit_factor', 'assembled', 'matfree', 'unit_offset'}
+    interesting = (flags & {'feedback', 'src_indices_nd', 'unit_factor', 'assembled', 'matfree', 'unit_offset'}) or spec.get('desvars')
     res.nontrivial = ncomp >= 3 and bool(interesting)
-    res.classes = cls + ['judged']
+    res.classes = cls + ['judged'] + (['driver_vars', 'driver_scaling' if q.get('driver_scaling') else 'driver_unscaled']
+                                      if spec.get('desvars') else ['explicit_of_wrt'])
     return res
+
+
+def _scale_of(meta, n):
+    """(scaler, adder) arrays of a desvar/response spec entry, from the documented definitions."""
+    if meta.get('ref') is not None or meta.get('ref0') is not None:
+        ref = np.asarray(meta.get('ref') if meta.get('ref') is not None else 1.0, dtype=float) * np.ones(n)
+        ref0 = np.asarray(meta.get('ref0') if meta.get('ref0') is not None else 0.0, dtype=float) * np.ones(n)
+        return 1.0 / (ref - ref0), -ref0
+    sc = np.asarray(meta.get('scaler') if meta.get('scaler') is not None else 1.0, dtype=float) * np.ones(n)
+    ad = np.asarray(meta.get('adder') if meta.get('adder') is not None else 0.0, dtype=float) * np.ones(n)
+    return sc, ad
+
+
+def driver_totals(p, spec, ref, dudx, cond, driver_scaling, mode):
+    """compute_totals() of the driver's own variables (indices, units, scaling) against the reference."""
+    from vfw.refmodel import conv
+    out = []
+    import openmdao.api as om
+    try:
+        Jd = p.compute_totals(return_format='flat_dict', driver_scaling=driver_scaling)
+    except om.AnalysisError:
+        raise
+    except Exception as e:
+        sig = core.repo_frame_signature(e, 'driver-totals')
+        if sig is None:
+            raise
+        return [(sig, f"mode={mode}: {type(e).__name__}: {e}")]
+    rt = 1e-9 * max(1.0, cond)
+    for r in spec['responses']:
+        ok, op, om_ = ref.var_positions(r['name'], r.get('indices'), r.get('flat_indices'))
+        fr = conv(om_['units'], r.get('units'))[0] if r.get('units') else 1.0
+        sr = _scale_of(r, len(op))[0] if driver_scaling else np.ones(len(op))
+        for d in spec['desvars']:
+            wk, wp, wm = ref.var_positions(d['name'], d.get('indices'), d.get('flat_indices'))
+            fd = conv(wm['units'], d.get('units'))[0] if d.get('units') else 1.0
+            sd = _scale_of(d, len(wp))[0] if driver_scaling else np.ones(len(wp))
+            Jr = ref.total_block(dudx, (ok, op), (wk, wp))
+            if driver_scaling:
+                Jr = Jr * (sr * fr)[:, None] / (sd * fd)[None, :]
+            key = (r.get('alias') or r['name'], d['name'])
+            if key not in Jd:
+                out.append(('driver-totals:missing-key', f"mode={mode}: {key} not in {sorted(Jd)}"))
+                continue
+            got = np.asarray(Jd[key])
+            tol = rt * (float(np.max(np.abs(Jr))) if Jr.size else 0.0) + 1e-11
+            if got.shape != Jr.shape or (got.size and float(np.max(np.abs(got - Jr))) > tol):
+                out.append((f"driver-totals:{'scaled' if driver_scaling else 'unscaled'}-block-differs-from-reference",
+                            f"mode={mode} {key}: got {got.tolist()} expected {Jr.tolist()}"))
+    return out
 
 
 # ----------------------------------------------------------------------------------------------------
@@ -228,7 +290,53 @@ def strategy(tier):
         ins = ['.'.join(c['path'] + [c['name'], v['name']]) for c in spec['comps'] if c['kind'] == 'ivc' for v in c['outputs']]
         of = draw(st.lists(st.sampled_from(outs), min_size=1, max_size=3, unique=True))
         wrt = draw(st.lists(st.sampled_from(ins), min_size=1, max_size=3, unique=True))
-        return {'spec': spec, 'query': {'of': of, 'wrt': wrt, 'formats': draw(st.integers(0, 4)) == 0}}
+        q = {'of': of, 'wrt': wrt, 'formats': draw(st.integers(0, 4)) == 0}
+        if draw(st.booleans()):
+            from vfw.gen_model import UNIT_FAMILIES, UNIT2FAMILY
+            meta = {'.'.join(c['path'] + [c['name'], v['name']]): v for c in spec['comps'] for v in c['outputs']}
+            q['driver_scaling'] = draw(st.booleans())
+            scal = st.sampled_from([-4.0, -0.5, 0.25, 2.0, 10.0, 300.0])
+
+            def entry(name, idx_ok=True):
+                v = meta[name]
+                size = int(np.prod(v['shape']))
+                e = {'name': name}
+                n = size
+                if idx_ok and size > 1 and draw(st.booleans()):
+                    k = draw(st.integers(1, size))
+                    ids = draw(st.lists(st.integers(-size, size - 1), min_size=k, max_size=k, unique_by=lambda i: i % size))
+                    e['indices'] = {'a': ids, 'list': draw(st.booleans())}
+                    e['flat_indices'] = True
+                    n = k
+                kind = draw(st.sampled_from(['none', 'scaler', 'scaler_arr', 'ref', 'ref_arr']))
+                if kind == 'scaler':
+                    e['scaler'] = draw(scal)
+                    if draw(st.booleans()):
+                        e['adder'] = draw(st.sampled_from([-3.0, 0.5, 7.0]))
+                elif kind == 'scaler_arr':
+                    e['scaler'] = [draw(scal) for _ in range(n)]
+                elif kind == 'ref':
+                    e['ref'] = draw(st.sampled_from([0.5, 3.0, 40.0, -2.0]))
+                    if draw(st.booleans()):
+                        e['ref0'] = draw(st.sampled_from([-1.0, 0.25, 5.0]))
+                        if abs(e['ref'] - e['ref0']) < 1e-9:
+                            e['ref0'] = 0.0
+                elif kind == 'ref_arr':
+                    e['ref'] = [draw(st.sampled_from([0.5, 3.0, 40.0])) for _ in range(n)]
+                    e['ref0'] = [draw(st.sampled_from([-1.0, 0.0, 0.25])) for _ in range(n)]
+                if q['driver_scaling'] and v.get('units') and draw(st.booleans()):
+                    fam = UNIT_FAMILIES[UNIT2FAMILY[v['units']]]
+                    e['units'] = draw(st.sampled_from(fam))
+                return e
+            spec['desvars'] = [entry(n) for n in wrt]
+            resp = []
+            for i, n in enumerate(of):
+                r = entry(n)
+                r['type'] = 'con'
+                r['lower'] = -1e30
+                resp.append(r)
+            spec['responses'] = resp
+        return {'spec': spec, 'query': q}
     return case()
 
 
